@@ -23,7 +23,7 @@ CONN_QUICK = [("tls", 2, 2, 1, 4, "after"), ("gm", 2, 1, 1, 4, "after"), ("tls",
               ("gm", 1, 1, 3, 6, "half"), ("tls", 2, 1, 3, 6, "half"),
               # "badrec": while Writes on A are blocked in the transport a forged record reaches A's reader, which answers with an alert
               ("gm", 2, 1, 0, 3, "badrec"), ("tls", 2, 2, 0, 3, "badrec"), ("gm", 1, 1, 0, 2, "badrec")]
-CONN_THOROUGH = CONN_QUICK + [("tls", 4, 2, 2, 8, "after"), ("gm", 4, 1, 2, 8, "after"), ("tls", 4, 2, 3, 8, "during"), ("gm", 4, 1, 3, 8, "during"), ("gm", 2, 1, 4, 8, "half"), ("tls", 2, 2, 4, 8, "half")] * 3
+CONN_THOROUGH = CONN_QUICK + [("tls", 4, 2, 2, 8, "after"), ("gm", 4, 1, 2, 8, "after"), ("tls", 4, 2, 3, 8, "during"), ("gm", 4, 1, 3, 8, "during"), ("gm", 2, 1, 4, 8, "half"), ("tls", 2, 2, 4, 8, "half")] * 2
 
 # (mode, clients, handshakes per client, rotations)
 # several handshakes of every client fall between two rotations: the first of them offers a ticket under the OLD key, and
